@@ -188,9 +188,11 @@ def cfg_st(draw, flags=("stop", "dry_run"), p_tags=0.6, show_skipped=True):
 
 
 @st.composite
-def program_st(draw, max_features=3, faults=True, cfg=None, **kw):
+def program_st(draw, max_features=3, faults=True, cfg=None, peek=True, **kw):
     feats = [draw(feature_st(**kw)) for _ in range(draw(st.integers(1, max_features)))]
     prog = {"features": feats, "cfg": draw(cfg if cfg is not None else cfg_st())}
+    if peek and draw(st.integers(0, 3)) == 0:
+        prog["peek"] = True         # hooks read element statuses (harness.Plan.peek)
     if faults:
         f = draw(st.integers(0, 5))
         if f == 0:
